@@ -34,7 +34,7 @@ CONTRACTS = [
     Contract("ext::TaskIndex.load_transitive_closure(cli)", params={"task_identifier": "TaskIdentifier"},
              modifies=["g_closure_ok"], ensures=["g_closure_ok"], raises={"ConductorError+": ["not g_closure_ok"]},
              trusted_reason="proved in contracts/task_index.py (C14): normal return <=> the closure is complete, acyclic and duplicate-free"),
-    Contract("utils/git.py::Git.rev_parse", params={"commit_symbol": "str"}, returns="Opt[str]", extern=True,
+    Contract("ext::Git.rev_parse(cli)", params={"commit_symbol": "str"}, returns="Opt[str]",
              trusted_reason="A-GIT: git rev-parse"),
     Contract("ext::ExecutionPlanner.create_plan_for", params={"task_id": "TaskIdentifier", "run_again": "bool", "at_least_commit": "Opt[str]"},
              returns="ExecutionPlan", fresh_result=True,
@@ -72,14 +72,16 @@ CONTRACTS = [
 
     Contract(F + "::main", params={"args": "Namespace"}, props=["C05", "C14", "C15", "C04", "C03"],
              prefer_ext={"Executor.run_plan": "Executor.run_plan", "ExecutionPlanner.create_plan_for": "ExecutionPlanner.create_plan_for",
-                         "TaskIndex.load_transitive_closure": "TaskIndex.load_transitive_closure(cli)"},
+                         "TaskIndex.load_transitive_closure": "TaskIndex.load_transitive_closure(cli)", "Git.rev_parse": "Git.rev_parse(cli)"},
              requires=[C("fresh_invocation", "not g_closure_ok and not g_planned and not g_ran")],
              modifies=["g_closure_ok", "g_planned", "g_ran", "g_plan_again", "g_plan_at_least", "g_jobs", "g_stop_early", "$alloc"],
              ensures=[C("check_never_plans_or_runs", "implies(args.check, not g_planned and not g_ran)", "C15", "C14"),
                       C("validated_before_anything_runs", "implies(g_planned or g_ran, g_closure_ok)", "C14", "C15"),
                       C("again_passed_through", "implies(g_planned, g_plan_again == args.again)", "C05"),
                       C("at_least_only_with_a_commit_flag", "implies(g_planned, (g_plan_at_least is not None) == (args.this_commit or args.at_least is not None))", "C05"),
-                      C("jobs_passed_through", "implies(g_ran, g_jobs >= 1 and implies(args.jobs is None, g_jobs == 1) and g_stop_early == args.stop_early)", "C04", "C03")],
+                      C("jobs_passed_through", "implies(g_ran, g_jobs >= 1 and implies(args.jobs is None, g_jobs == 1) and g_stop_early == args.stop_early)", "C04", "C03"),
+                      C("the_executor_gets_exactly_the_requested_number_of_slots",
+                        "implies(g_ran and args.jobs is not None and some(args.jobs) != -1, g_jobs == some(args.jobs))", "C04")],
              raises={"ConductorError+": [C("nothing_ran_without_validation", "implies(g_planned or g_ran, g_closure_ok)", "C14", "C15"),
                                          C("check_never_plans_or_runs", "implies(args.check, not g_planned and not g_ran)", "C15")],
                      # only the construction of the Context (config / sqlite errors) may fail with a non-Conductor exception: before anything ran
